@@ -507,7 +507,8 @@ class Abstractor:
         return i
 
     def is_modclass(self, o):
-        return isinstance(o, type) and o.__module__ == self.modname
+        # classes of the module under reload, and of the harness's helper modules (foreign, but Python-level and patchable)
+        return isinstance(o, type) and (o.__module__ == self.modname or str(o.__module__).startswith("c16ext"))
 
     def describe(self, o):
         mn = self.modname
@@ -933,6 +934,7 @@ class C16(Prop):
                 fl["inmod_base"] = bool(ismod and inmod_base(fv, name))
                 fl["kind_changed"] = bool(ismod and kindch.get(n)) or n in kindbad
                 fl["calls_foreign"] = fl["foreign"]
+                fl["old_foreign_modified"] = n in obs.get("foreign_modified", [])
                 fl["slots_mixed"] = False
                 if ismod and not isinstance(fv, type):
                     sl = [k for k in type(fv).__mro__ if k.__dict__.get("__slots__")]
@@ -961,7 +963,7 @@ class C16(Prop):
                 changed = False
                 for n, ds in deps.items():
                     for dn in ds:
-                        for k in ("multi_paired", "cell_unpatchable", "kind_changed", "calls_foreign"):
+                        for k in ("multi_paired", "cell_unpatchable", "kind_changed", "calls_foreign", "old_foreign_modified"):
                             if flags[dn][k] and not flags[n][k]:
                                 flags[n][k] = True
                                 changed = True
@@ -1344,7 +1346,10 @@ C16.families = {
     "method_kind_changed": C16._fam_kind,
     "aliasing_changed_between_versions": C16._fam_alias,
     "slots_instance_partially_synced": C16._fam_slots_mixed,
-    "object_of_another_module_modified": (lambda case, f: f.get("what", "").startswith("an object that belongs to another module")),
+    "object_of_another_module_modified": (lambda case, f: f.get("what", "").startswith("an object that belongs to another module")
+                                          or (f.get("what", "").startswith(("namespace differs", "captured reference", "captured method",
+                                                                            "class relation differs", "aliasing among"))
+                                              and bool((f.get("flags") or {}).get("old_foreign_modified")))),
     "slots_instance_setattr_typeerror": C16._fam_raise("setattr expected 3 arguments"),
     "class_dict_descriptor_not_writable": C16._fam_raise("attribute '__dict__' of 'type' objects is not writable"),
     "bases_assignment_layout": C16._fam_raise("__bases__ assignment"),
